@@ -30,7 +30,7 @@ func GenTx(t *rapid.T) TxSpec {
 	}
 	nout := rapid.IntRange(1, 4).Draw(t, "nout")
 	for i := 0; i < nout; i++ {
-		ts.Outs = append(ts.Outs, OutSpec{Fam: rapid.IntRange(0, 12).Draw(t, "fam"), Share: rapid.IntRange(0, 99).Draw(t, "share"), N: rapid.IntRange(0, 999).Draw(t, "n")})
+		ts.Outs = append(ts.Outs, OutSpec{Fam: rapid.IntRange(0, 17).Draw(t, "fam"), Share: rapid.IntRange(0, 99).Draw(t, "share"), N: rapid.IntRange(0, 999).Draw(t, "n")})
 	}
 	ts.Fee = rapid.IntRange(0, 50).Draw(t, "fee")
 	if rapid.IntRange(0, 5).Draw(t, "seqsel") == 0 {
@@ -152,7 +152,7 @@ func AddWideBlock(t *rapid.T, c *Case) bool {
 	for j := 0; j < n; j++ {
 		// selector 0: always the first of the (sorted) confirmed candidates, never an output created in this block
 		op.Txs = append(op.Txs, TxSpec{Ins: []int{0},
-			Outs: []OutSpec{{Fam: rapid.IntRange(0, 12).Draw(t, "widefam"), Share: 1, N: j}}, Fee: 1})
+			Outs: []OutSpec{{Fam: rapid.IntRange(0, 17).Draw(t, "widefam"), Share: 1, N: j}}, Fee: 1})
 	}
 	// enough mature coinbases: the chain tip stays at the same absolute height
 	if need := 100 + n + 8 + 20*i; c.Params.Prefix < need {
